@@ -50,6 +50,7 @@ func c10ECDH(c *Ctx, prog *load.Program) {
 	for _, p := range r.Ex.Panics {
 		c.R.Fail("C10-1", "ECDH/no-panic", PosStr(prog, p.Pos), fmt.Sprintf("a panic (%s) is reachable when {%s}", p.Msg, GuardString(p.Guard)))
 	}
+	indexSafety(c, "C10-1", "ECDH", pos, r)
 	acc, prob := acceptFormula(r, 1)
 	if prob != "" {
 		c.R.Unknown("C10-1", "ECDH", pos, prob)
@@ -184,6 +185,7 @@ func c10Constructors(c *Ctx, prog *load.Program) {
 		if bad {
 			continue
 		}
+		indexSafety(c, "C10-3", k, pos, r)
 		acc, prob := acceptFormula(r, 1)
 		if prob != "" {
 			c.R.Unknown("C10-3", k, pos, prob)
